@@ -145,8 +145,14 @@ fn lib_source(c: &Config, i: usize, defined_name: &str, body_faults: bool) -> St
     let imps: Vec<String> = (0..c.n).filter(|j| c.edges[i] & (1 << j) != 0).map(|j| import_set(c.style, i, j)).collect();
     let import = if imps.is_empty() { String::new() } else { format!(" (import {})", imps.join(" ")) };
     let value = if body_faults { "boom-unbound".to_string() } else { format!("{}", i + 1) };
+    // every library privately defines a MACRO named like the procedure each OTHER library uses to
+    // compute its value: loading (or failing to load) one library must not change how another is read
+    let macros: String = (0..3).filter(|j| *j != i).map(|j| format!("    (define-syntax probe-{0} (syntax-rules () ((probe-{0} a) 'leaked-from-{1})))\n", NAMES[j], NAMES[i])).collect();
     // several lines: where in the file something goes wrong must not matter
-    format!("(define-library ({})\n  (export v{}){}\n  (begin\n    (define v{} {})))\n", defined_name, NAMES[i], import, NAMES[i], value)
+    format!(
+        "(define-library ({})\n  (export v{}){}\n  (begin\n{}    (define (probe-{} a) a)\n    (define v{} (probe-{} {}))))\n",
+        defined_name, NAMES[i], import, macros, NAMES[i], NAMES[i], NAMES[i], value
+    )
 }
 
 /// the reference loader: set of acceptable error kinds for importing library `x` (empty = success)
